@@ -61,6 +61,8 @@ def check_closed_form(case):
 
     _selfcheck()
     th, eps, delta, nv = case["theta"], case["eps"], case["delta"], case["noise_var"]
+    unit = float(case.get("unit", 1.0))  # the guarantee is scale equivariant: (eps, sigma) -> (c eps, c sigma)
+    eps, nv = eps * unit, nv * unit * unit
     order = ConeTheta2DOrder(th)
     W = np.asarray(order.ordering_cone.W, float)
     al, _, _ = geom.cone_alpha(W)
@@ -179,6 +181,8 @@ def check_monte_carlo(case):
     from vopy.utils import set_seed
 
     th, eps, delta, nv = case["theta"], case["eps"], case["delta"], case["noise_var"]
+    unit = float(case.get("unit", 1.0))  # the guarantee is scale equivariant: (eps, sigma) -> (c eps, c sigma)
+    eps, nv = eps * unit, nv * unit * unit
     order = ConeTheta2DOrder(th)
     W = np.asarray(order.ordering_cone.W, float)
     al, _, _ = geom.cone_alpha(W)
@@ -201,7 +205,7 @@ def check_monte_carlo(case):
     try:
         alg0 = NaiveElimination(eps, delta, name, order, nv)
         L = int(alg0.L)
-        labels = [f"K={K}", "noise<1" if nv < 1 else "noise>=1"]
+        labels = [f"K={K}", "noise<1" if case["noise_var"] < 1 else "noise>=1", f"unit={unit:g}"]
         if L > 4000:
             return Result.indet(labels + ["L-too-large-for-MC"])
         # gaps and coverage on the truth
@@ -229,7 +233,7 @@ def check_monte_carlo(case):
         return Result.violation("C08:default-L-too-small",
                                 f"Monte-Carlo: {fails}/{runs} runs failed with default L={L} (noise_var={nv}, eps={eps}, delta={delta}, theta={th}, K={K}); "
                                 f"binomial tail under p=delta: {tail:.2e}", labels)
-    return Result.ok(labels + [f"fails={'0' if fails == 0 else '>0'}"], nv < 1 or fails > 0)
+    return Result.ok(labels + [f"fails={'0' if fails == 0 else '>0'}"], case["noise_var"] < 1 or fails > 0)
 
 
 @st.composite
@@ -238,7 +242,7 @@ def st_mc(draw):
     return {"theta": draw(st.sampled_from([45.0, 60.0, 90.0, 120.0])), "eps": draw(st.sampled_from([0.2, 0.5, 1.0])),
             "delta": draw(st.sampled_from([0.05, 0.1, 0.2])), "noise_var": draw(st.sampled_from([0.01, 0.05, 0.25, 1.0, 2.0])),
             "psi": [draw(st.floats(-0.9, 0.9)) for _ in range(n)], "etas": [draw(gen.st_logfloat(0.01, 0.3)) for _ in range(n)],
-            "runs": 60, "seed": draw(st.integers(0, 2**30))}
+            "runs": 60, "seed": draw(st.integers(0, 2**30)), "unit": draw(st.sampled_from([1.0, 1.0, 1e-4, 1e-2, 1e3]))}
 
 
 COMPONENTS = [
@@ -247,5 +251,5 @@ COMPONENTS = [
     Component("P_is_pareto_of_means", check_P_identity, strategy=st_pid, quick=300, thorough=8000,
               rule="2..7 designs, 1..6 or 45..130 rounds (beyond the 50-round logging throttle), recording proxy on problem.evaluate; compared after every step incl. one step after completion"),
     Component("default_L_monte_carlo", check_monte_carlo, strategy=st_mc, quick=24, thorough=400,
-              rule="3..6 designs, 60 real runs each with the default L (<= 4000), exact binomial tail at 1e-9"),
+              rule="3..6 designs, 60 real runs each with the default L (<= 4000), problem rescaled by 1 / 1e-4 / 1e-2 / 1e3, exact binomial tail at 1e-9"),
 ]
